@@ -302,7 +302,8 @@ def c02_py_converters(prop="C02", tier="quick", seed=0, **kw):
     maxlen = 2 if quick else 3
     jobs = [_job("h_conv", "conv:%s" % json.dumps(t, ensure_ascii=True)[:60], b, t=t, maxlen=maxlen) for t in CONV_TYPES]
     jobs.append(_job("h_json_kinds", "json_kinds", b))
-    jobs.append(_job("h_ndjson_lines", "lines", b, nmax=2 if quick else 3))
+    for pat in (("VSV", "VSSV", "SSS") if quick else ("VSV", "VSSV", "SSS", "SSV", "VSVS", "VSSSV")):
+        jobs.append(_job("h_ndjson_lines", "lines:" + pat, b, nmax=2 if quick or len(pat) > 4 else 3, pattern=pat))
     expected = ["conv.to_json-no-unexpected-exception", "conv.range-error-only-if-out-of-range", "conv.out-of-range-is-rejected",
                 "conv.from_json-no-exception", "conv.from_json(to_json(v))==v", "conv.json-kinds-extracted", "conv.kind-table-matches-runtime",
                 "lines.no-exception", "lines.values==written", "lines.all-lines-consumed-once"]
